@@ -27,15 +27,15 @@ var Prop = &engine.Prop{
 		"LRU capacity is chosen so that no shard ever evicts (per-shard capacity is C04's subject); lock and semaphore programs never block (a blocking acquire is issued only when both structures visibly have room)",
 		"Hit() and ToBytes() of the key types used are pure functions of the key value",
 	},
-	ShardsQuick: 4, ShardsThorough: 16,
-	WatchdogQuick: 5 * time.Minute, WatchdogThorough: 45 * time.Minute,
+	ShardsQuick: 4, ShardsThorough: 48,
+	WatchdogQuick: 5 * time.Minute, WatchdogThorough: 135 * time.Minute,
 	Kinds: []engine.Kind{
-		{Name: "index", Quick: 2400, Thorough: 72000, Fn: indexCase},
-		{Name: "partition", Quick: 400, Thorough: 12000, Fn: partitionCase},
-		{Name: "widemap", Quick: 5000, Thorough: 250000, Fn: wideMapCase},
-		{Name: "widelru", Quick: 5000, Thorough: 250000, Fn: wideLRUCase},
-		{Name: "keylock", Quick: 5000, Thorough: 250000, Fn: keyLockCase},
-		{Name: "semap", Quick: 5000, Thorough: 250000, Fn: semapCase},
+		{Name: "index", Quick: 2400, Thorough: 216000, Fn: indexCase},
+		{Name: "partition", Quick: 400, Thorough: 36000, Fn: partitionCase},
+		{Name: "widemap", Quick: 5000, Thorough: 750000, Fn: wideMapCase},
+		{Name: "widelru", Quick: 5000, Thorough: 750000, Fn: wideLRUCase},
+		{Name: "keylock", Quick: 5000, Thorough: 750000, Fn: keyLockCase},
+		{Name: "semap", Quick: 5000, Thorough: 750000, Fn: semapCase},
 	},
 	Floors: map[string]int64{
 		// routing
